@@ -236,6 +236,43 @@ def _san_kind(stderr, rc):
     return "ub(exit:%d)" % rc
 
 
+HANG_S = int(os.environ.get("VERIF_HANG_S", "180"))
+
+
+class _Proc:
+    pass
+
+
+def _run_watched(cmd, env):
+    """subprocess.run with a progress watchdog: the harnesses flush one output line per input line, so a process that
+    writes nothing for HANG_S seconds is hung on the line after the last one it answered; it is killed (`hung`)."""
+    import select
+    import tempfile
+    r = _Proc()
+    with tempfile.TemporaryFile() as ef:
+        p = subprocess.Popen(cmd, stdout=subprocess.PIPE, stderr=ef, env=env)
+        fd = p.stdout.fileno()
+        chunks = []
+        r.hung = False
+        while True:
+            ready, _, _ = select.select([fd], [], [], HANG_S)
+            if not ready:
+                r.hung = True
+                p.kill()
+                break
+            b = os.read(fd, 1 << 16)
+            if not b:
+                break
+            chunks.append(b)
+        p.wait()
+        p.stdout.close()
+        ef.seek(0)
+        r.stderr = ef.read().decode(errors="replace")
+    r.stdout = b"".join(chunks).decode(errors="replace")
+    r.returncode = p.returncode
+    return r
+
+
 def run_harness(exe, case_file, starts, n_lines, env=None, max_aborts=40):
     """Run the harness over the whole case file.  `starts` = sorted list of line indices at which a case
     starts.  A sanitizer abort (or any crash) on line k yields `ub(...)` for line k, `skipped` for the rest
@@ -249,9 +286,9 @@ def run_harness(exe, case_file, starts, n_lines, env=None, max_aborts=40):
     if env:
         e.update(env)
     import bisect
+    hangs = 0
     while pos < n_lines:
-        p = subprocess.run([exe, case_file, str(pos)], stdout=subprocess.PIPE, stderr=subprocess.PIPE,
-                           text=True, errors="replace", env=e)
+        p = _run_watched([exe, case_file, str(pos)], e)
         got = p.stdout.split("\n")
         if got and got[-1] == "":
             got.pop()
@@ -273,6 +310,11 @@ def run_harness(exe, case_file, starts, n_lines, env=None, max_aborts=40):
             k = pos + len(got)
         outs[pos:k] = got
         kind = _san_kind(p.stderr, p.returncode)
+        if p.hung:
+            # the implementation did not finish this line (the harness flushes one line per input line): an endless
+            # loop is reported like a crash, on the line it happened
+            kind = "ub(timeout:no_output_for_%ds)" % HANG_S
+            hangs += 1
         if k >= n_lines:
             raise MachineryError("harness failed after the last line: rc=%d %s" % (p.returncode, p.stderr[-300:]))
         outs[k] = kind + "\t" + kind
@@ -283,7 +325,7 @@ def run_harness(exe, case_file, starts, n_lines, env=None, max_aborts=40):
             outs[t] = "skipped\tskipped"
         pos = nxt
         aborts += 1
-        if aborts >= max_aborts:
+        if aborts >= max_aborts or hangs >= 3:
             for t in range(pos, n_lines):
                 outs[t] = "skipped\tskipped"
             break
